@@ -2202,6 +2202,10 @@ static void compile_stmt(CG *cg, ASTNode *node) {
                        loop->breaks[i].instr_offset, loop_end);
         }
 
+        /* The loop variable goes out of scope with the loop (a global or outer
+         * variable of the same name is visible again) */
+        cg->locals[var_slot].name = "";
+
         cg->loop_depth--;
         break;
     }
